@@ -7,7 +7,7 @@ from . import core, hist
 
 def run(mod, tier, all_violations=False, t0=None, extra=None):
     t0 = t0 or time.time()
-    res = hist.search(tier)
+    res = hist.search(tier, prop=mod.ID)
     if "error" in res:
         print("INFRASTRUCTURE: %s" % res["error"])
         return 2
@@ -74,7 +74,7 @@ def run(mod, tier, all_violations=False, t0=None, extra=None):
         "states": res["states"], "transitions": res["transitions"], "traces_validated_against_impl": res["transitions"],
         "samples": samples or [{"note": "no non-initial state"}],
         "initial_states": res["initial"], "max_bfs_depth": res["max_depth"], "distinct_dense_outcomes": res["dense_outcomes"],
-        "fixpoint_reached": not res["capped"], "exhaustive": not res["capped"], "bounds": res["cfg"],
+        "fixpoint_reached": not res["capped"], "exhaustive": not res["capped"], "stopped_after_first_violating_level": bool(unmatched) and res["capped"], "bounds": res["cfg"],
         "rule": desc["rule"], "violating_transitions_not_expanded": res["pruned"], "violations_of_other_properties_on_this_graph": others,
         "known_finding_hits": hits, "evaluations": res["transitions"], "distinct_nontrivial": res["states"] - res["initial"],
     }
@@ -93,6 +93,7 @@ def replay(case):
     cfg = hist.BOUNDS[case.get("tier", "quick")]
     ctx = hist.expand(key, cfg)
     hits = [v for v in ctx.viol if v[2] == case["op"] or case["op"].get("op") == "compare"]
+    hits = [v for v in hits if case.get("property") in (None, v[0])] or hits
     if case["op"].get("op") == "compare" and case.get("other"):
         pv, _ = hist.pair_checks([key, hist.key_from_description(case["other"])], "quick")
         for v in pv:
